@@ -277,3 +277,30 @@ Proof.
     unfold not_crlf in Hc. destruct (is_crlf x); [discriminate|reflexivity]. }
   rewrite H2. apply rev_involutive.
 Qed.
+
+(* the first character of a stripped line is neither CR nor LF *)
+Definition head_ok (l : list Z) : Prop :=
+  match l with [] => True | c :: _ => not_crlf c = true end.
+
+Lemma dropwhile_suffix p l : exists pre, l = pre ++ dropwhile p l.
+Proof.
+  induction l as [|x l [pre IH]]; cbn; [exists []; reflexivity|].
+  destruct (p x); [exists (x :: pre); cbn; congruence|exists []; reflexivity].
+Qed.
+
+Lemma dropwhile_head p l : stops p (dropwhile p l).
+Proof.
+  induction l as [|x l IH]; cbn; [exact I|].
+  destruct (p x) eqn:Hx; [assumption|cbn; assumption].
+Qed.
+
+Lemma strip_head_ok l : head_ok (strip_crlf l).
+Proof.
+  unfold strip_crlf. set (m := dropwhile is_crlf l).
+  destruct (dropwhile_suffix is_crlf (rev m)) as [pre Hpre].
+  assert (Hm : m = rev (dropwhile is_crlf (rev m)) ++ rev pre).
+  { rewrite <- rev_app_distr, <- Hpre, rev_involutive. reflexivity. }
+  pose proof (dropwhile_head is_crlf l) as Hh. fold m in Hh.
+  destruct (rev (dropwhile is_crlf (rev m))) as [|c r] eqn:E; [exact I|].
+  rewrite Hm in Hh. cbn in Hh. unfold head_ok, not_crlf. rewrite Hh. reflexivity.
+Qed.
